@@ -20,10 +20,20 @@ Definition model_bad (cs : list (string * bool * N)) : list (N * N) :=
 
 (* C: implementation vs spec (frozen reference tables) on structured names.
    case = (pre, c0, comps, post, uat, impl code); ill-formed cases are reported with code 0 *)
+(* domain 1: components are any valid UTF-8 (wf_sname_u; leading junk may contain dots).
+   domain 2 ("raw"): the first component is an arbitrary dot-free non-empty byte string (possibly not
+   UTF-8), no junk at either end, and the scan from the right is decided before the first component
+   is reached (the result is the same for two different first components). *)
+Definition no_dot_nonempty (c : bytes) : bool := negb (is_empty c) && negb (memb dot c).
 Definition spec_code (pre c0 : string) (comps : list string) (post : string) (uat : bool) : N :=
   let cs := map unhex comps in
-  if wf_sname_wide ref_junk ref_junk_lead (unhex pre) (unhex c0) cs (unhex post)
+  if wf_sname_u ref_junk ref_junk_lead (unhex pre) (unhex c0) cs (unhex post)
   then result_code (spec_classify ref_sfx_table ref_name_table uat (unhex c0) cs)
+  else if is_empty (unhex pre) && is_empty (unhex post) && no_dot_nonempty (unhex c0)
+          && forallb (clean_comp_u ref_junk ref_junk_lead) cs
+          && (result_code (spec_classify ref_sfx_table ref_name_table uat [120] cs)
+              =? result_code (spec_classify ref_sfx_table ref_name_table uat [117; 116; 109; 112] cs))
+  then result_code (spec_classify ref_sfx_table ref_name_table uat [120] cs)
   else 0.
 Definition spec_bad (cs : list (string * string * list string * string * bool * N)) : list (N * N) :=
   flat_map (fun ic => let '(i, (pre, c0, comps, post, u, impl)) := ic in
